@@ -1,6 +1,7 @@
 (* C03 — integer sum / dot / squared norm / squared Euclidean distance are exact modulo 2^bits. *)
 From Coq Require Import ZArith List Bool.
 From CF Require Import Base.Mem Model.Tables Model.Prim Model.SimdApi Model.Kernels Model.Regs.
+From CF Require Import Model.Spec Model.TableSem Model.Exports Model.Safe Proofs.SpecLink Proofs.SafeSem Gen.GenExports Gen.GenSafe Gen.GenMacros Gen.GenDispatch.
 From CF Require Import Proofs.KernelBounds Proofs.ReduceCorrect Proofs.IntReduce.
 Import ListNotations.
 
@@ -65,3 +66,57 @@ Proof.
   destruct H1 as (_ & Hr1 & E1). destruct H2 as (_ & Hr2 & E2).
   apply (eqm_in_range w); auto. eapply eqm_trans; [exact E1 | apply eqm_sym; exact E2].
 Qed.
+
+Definition reduction_kernels : list kernel := [KSum; KDot; KNorm; KEuclid].
+
+(* The hypothesis [IntLanewise] holds for every modelled (register, integer type) pair of the export tables, so: for
+   every such row the four reductions meet the executable specification [spec_int] - the exact sum in Z of the
+   signed / unsigned readings, reduced modulo 2^w (the oracle applied to the real implementation's output). *)
+Theorem C03_every_backend :
+  forall r t R k a b res v dims,
+    int_ops r t = Some R -> In k reduction_kernels ->
+    length a = dims -> Forall (in_range (width t)) a -> in_range (width t) v ->
+    (kernel_uses_b k = true -> length b = dims /\ Forall (in_range (width t)) b) ->
+    meets (init_mem a b res)
+          (run_kernel R (int_math (is_signed t) (width t)) k dims v (init_mem a b res))
+          (spec_int (is_signed t) (width t) k v a b).
+Proof.
+  intros r t R k a b res v dims HR Hk Ha Fa Hv Hb.
+  apply (int_export_meets_spec r t R k a b res v dims HR); auto.
+  - unfold reduction_kernels in Hk. unfold int_spec_kernels. cbn [In] in *. tauto.
+  - intros Hw. unfold reduction_kernels in Hk. cbn [In] in Hk.
+    repeat (destruct Hk as [<-|Hk]; [discriminate Hw|]). contradiction.
+Qed.
+
+(* ... and through the SAFE API under every dispatch outcome (see Proofs/SafeSem.v). *)
+Theorem C03_safe_api :
+  forall s f bc p debug m sf k x,
+    In s safe_entries -> find_safe_macro safe_macros (s_macro s) = Some m -> safe_fn_of m f = Some sf ->
+    safe_kernel s = Some k -> select_chain dispatch_chain bc p (supplied_of sf) = Some x -> x <> SNeon ->
+    forall DIMS v a b res,
+      is_float (s_ty s) = false -> In k reduction_kernels ->
+      let l := {| len_a := length a; len_b := length b; len_r := length res; len_dims := DIMS |} in
+      asserts_pass l (sf_asserts sf) = true ->
+      (debug = true -> asserts_pass l (sf_debug_asserts sf) = true) ->
+      Forall (in_range (width (s_ty s))) a -> in_range (width (s_ty s)) v ->
+      (kernel_uses_b k = true -> Forall (in_range (width (s_ty s))) b) ->
+      xmeets (run_safe dispatch_chain run_export_int exports safe_macros s f bc p debug DIMS v a b res)
+             (spec_int (is_signed (s_ty s)) (width (s_ty s)) k v a b).
+Proof.
+  intros s f bc p debug m sf k x Hs Hm Hsf Hk Hsel Hx DIMS v a b res Hty Hkin.
+  apply (safe_int_meets_spec s f bc p debug m sf k x Hs Hm Hsf Hk Hsel Hx DIMS v a b res Hty).
+  unfold reduction_kernels in Hkin. unfold int_spec_kernels. cbn [In] in *. tauto.
+Qed.
+
+(* Non-vacuity: a wrapping i8 dot product on the AVX-512 model over 200 elements. *)
+Example C03_nonvacuous :
+  let a := map (fun i => Z.of_nat (i mod 256)) (seq 0 200) in
+  match int_ops Avx512 I8 with
+  | Some R =>
+      match run_kernel R (int_math true 8) KDot 200 0%Z (init_mem a a []) with
+      | Ok (RValue r) _ => r = (Zsum (map (fun x => sgn 8 x * sgn 8 x) a) mod 256)%Z
+      | _ => False
+      end
+  | None => False
+  end.
+Proof. vm_compute. reflexivity. Qed.
